@@ -1,6 +1,8 @@
 """C20 - equations of state invert consistently."""
 import math
 
+import numpy as np
+
 from hypothesis import strategies as st
 
 from vf.core import Clause
@@ -131,6 +133,23 @@ def check_vdw(case, ctx):
               [eos.get_n(V=V, P=1.0, T=T, gas_phase=gas), eos.get_n(V=V, P=P, T=298.15, gas_phase=gas),
                eos.get_T(V=V, P=1.0, n=n), eos.get_P(V=V, T=298.15, n=n),
                eos.get_V(T=298.15, P=P, n=n, gas_phase=gas), eos.get_V(T=T, P=1.0, n=n, gas_phase=gas)], rtol=1e-12)
+    # the root selector is a truth value: a NumPy boolean (e.g. the result of an array comparison) selects the same root
+    ctx.close('C20.vdw/gas_phase-numpy-bool', [eos.get_V(T=T, P=P, n=n, gas_phase=np.bool_(gas)),
+                                               eos.get_Vm(T=T, P=P, gas_phase=np.bool_(gas)),
+                                               eos.get_n(V=V, T=T, P=P, gas_phase=np.bool_(gas))],
+              [V, eos.get_Vm(T=T, P=P, gas_phase=gas), eos.get_n(V=V, T=T, P=P, gas_phase=gas)], rtol=0)
+    # the explicit inverses work element-wise on arrays of volumes; the caller's array is left alone and a second
+    # call on it gives the same answer (one mole - the default - and n moles)
+    for n_ in (1., n):
+        Va = np.array([V / n * n_, 2 * V / n * n_, Vd * n_])
+        Va0 = Va.copy()
+        Ta = eos.get_T(V=Va, P=P, n=n_)
+        Pa = eos.get_P(T=T, V=Va, n=n_)
+        if not np.array_equal(Va, Va0):
+            ctx.fail('C20.vdw/array-argument-mutated', 'V before %r after %r (n=%r)' % (Va0.tolist(), Va.tolist(), n_))
+        ctx.close('C20.vdw/array=scalars', [list(np.ravel(Ta)), list(np.ravel(Pa))],
+                  [[eos.get_T(V=float(v), P=P, n=n_) for v in Va0], [eos.get_P(T=T, V=float(v), n=n_) for v in Va0]],
+                  rtol=1e-13, detail='n=%r' % n_)
     # documented defaults: one mole, the gas-like root
     ctx.close('C20.vdw/defaults', [eos.get_V(T=T, P=P, gas_phase=gas), eos.get_V(T=T, P=P, n=n), eos.get_Vm(T=T, P=P)],
               [eos.get_V(T=T, P=P, n=1., gas_phase=gas), eos.get_V(T=T, P=P, n=n, gas_phase=True),
